@@ -255,11 +255,11 @@ class upload_app : public cppcms::application, public cppcms::http::multipart_fi
 public:
 	upload_app(cppcms::service &s) : cppcms::application(s) {}
 	upload_data *d() { return context().get_specific<upload_data>(); }
-	void on_new_file(cppcms::http::file &f) { d()->new_files++; d()->names += f.name() + ";"; }
-	void on_upload_progress(cppcms::http::file &) { d()->progress++; }
-	void on_data_ready(cppcms::http::file &) { d()->ready++; }
-	void on_end_of_content() { d()->end_of_content++; }
-	void on_error() { d()->errors++; ev("{\"ev\":\"on_error\",\"app\":\"upload\",\"token\":" + jstr(token_of(request())) + ",\"errors\":" + std::to_string(d()->errors) + "}"); }
+	void on_new_file(cppcms::http::file &f) { if (!d()) return; d()->new_files++; d()->names += f.name() + ";"; }
+	void on_upload_progress(cppcms::http::file &) { if (d()) d()->progress++; }
+	void on_data_ready(cppcms::http::file &) { if (d()) d()->ready++; }
+	void on_end_of_content() { if (d()) d()->end_of_content++; }
+	void on_error() { upload_data *u = d(); if (u) u->errors++; ev("{\"ev\":\"on_error\",\"app\":\"upload\",\"token\":" + jstr(token_of(request())) + ",\"errors\":" + std::to_string(u ? u->errors : -1) + "}"); }
 	void main(std::string url)
 	{
 		if (!request().is_ready()) {
@@ -283,9 +283,9 @@ class rawup_app : public cppcms::application, public cppcms::http::raw_content_f
 public:
 	rawup_app(cppcms::service &s) : cppcms::application(s) {}
 	upload_data *d() { return context().get_specific<upload_data>(); }
-	void on_data_chunk(void const *p, size_t n) { d()->raw_chunks++; d()->raw_bytes += (long)n; d()->raw_hash = fnv(p, n, d()->raw_hash); }
-	void on_end_of_content() { d()->end_of_content++; }
-	void on_error() { d()->errors++; ev("{\"ev\":\"on_error\",\"app\":\"rawup\",\"token\":" + jstr(token_of(request())) + ",\"errors\":" + std::to_string(d()->errors) + "}"); }
+	void on_data_chunk(void const *p, size_t n) { if (!d()) return; d()->raw_chunks++; d()->raw_bytes += (long)n; d()->raw_hash = fnv(p, n, d()->raw_hash); }
+	void on_end_of_content() { if (d()) d()->end_of_content++; }
+	void on_error() { upload_data *u = d(); if (u) u->errors++; ev("{\"ev\":\"on_error\",\"app\":\"rawup\",\"token\":" + jstr(token_of(request())) + ",\"errors\":" + std::to_string(u ? u->errors : -1) + "}"); }
 	void main(std::string url)
 	{
 		if (!request().is_ready()) {
@@ -298,6 +298,8 @@ public:
 			return;
 		}
 		upload_data *u = d();
+		upload_data none;
+		if (!u) u = &none;
 		response().set_header("X-Filter", "raw_bytes=" + std::to_string(u->raw_bytes) + " raw_chunks=" + std::to_string(u->raw_chunks) + " raw_hash=" + std::to_string(u->raw_hash) + " eoc=" + std::to_string(u->end_of_content) + " errors=" + std::to_string(u->errors));
 		echo_body(*this, url, "rawup");
 	}
